@@ -21,10 +21,10 @@ Requests: method in {GET, POST, OPTIONS, LOCK, HEAD, WEBSOCKET (meta), BOGUS} x 
 (each prefix, its boundary /a vs /ab vs /a/, nested, digits, a miss).
 
 Bound: histories of length <= 3 (quick) / <= 4 (thorough); the alphabet shrinks
-with the length -- nested alphabets FULL(134, all 32 method subsets) > MID(28) >
+with the length -- nested alphabets FULL(144, all 32 method subsets) > MID(33) >
 CORE(13) > MIN(10), see `alphabets()`:
-  quick    FULL^1 + MID^2  + CORE^3           = 3 116 histories
-  thorough FULL^1 + FULL^2 + MID^3  + MIN^4   = 50 043 histories
+  quick    FULL^1 + MID^2  + CORE^3           = 3 431 histories
+  thorough FULL^1 + FULL^2 + MID^3  + MIN^4   = 66 818 histories
 every history over the stated alphabet of its length is run -- no sampling.
 
 Oracle: `Model` -- a list of registrations; dispatch computed from the list by
@@ -84,6 +84,8 @@ def sink_prefixes(nm):
         'root': '/',
         'lit': '/' + L,
         'litc': re.compile('/' + L),
+        # a precompiled pattern that matches only thanks to its flags (written in upper case, IGNORECASE)
+        'litci': re.compile('/' + L.upper(), re.IGNORECASE),
         'num': r'/(?P<%s>\d+)' % nm['id'],
         'rest': '/%s/(?P<%s>.+)' % (L, nm['rest']),
         'oth': '/' + nm['oth'],
@@ -109,6 +111,8 @@ def m_sink_match(key, nm, path):
         return {} if path.startswith('/') else None
     if key in ('lit', 'litc'):
         return {} if path.startswith(L) else None
+    if key == 'litci':
+        return {} if path.lower().startswith(L.lower()) else None
     if key == 'oth':
         return {} if path.startswith('/' + nm['oth']) else None
     if key == 'num':
@@ -274,8 +278,11 @@ def _responder(name, is_async, log):
     return responder
 
 
-def make_resource(ident, plain, suffixed, sfx, is_async, log):
+def make_resource(ident, plain, suffixed, sfx, is_async, log, falsy=False):
     ns = {}
+    if falsy:
+        # a container-like resource that is empty: bool(resource) is False; it is a resource all the same
+        ns['__len__'] = lambda self: 0
     for m in plain:
         n = 'on_' + m.lower()
         ns[n] = _responder(n, is_async, log)
@@ -349,7 +356,7 @@ class Subject:
         k = op[0]
         a, nm, log = self.app, self.nm, self.log
         if k == 'R':
-            a.add_route(self.tm[op[1]], make_resource(idx, op[2], (), nm['sfx'], self.is_async, log))
+            a.add_route(self.tm[op[1]], make_resource(idx, op[2], (), nm['sfx'], self.is_async, log, falsy=len(op) > 3))
         elif k == 'S':
             plain, suff = KINDS[op[2]]
             res = make_resource(idx, plain, suff, nm['sfx'], self.is_async, log)
@@ -451,8 +458,10 @@ def alphabets():
         for kind in ('X', 'PX', 'P', 'N'):
             full.append(('S', t, kind, True))
             full.append(('S', t, kind, False))
-    for key in ('root', 'lit', 'litc', 'num', 'rest', 'oth', 'opt'):
+    for key in ('root', 'lit', 'litc', 'num', 'rest', 'oth', 'opt', 'litci'):
         full.append(('K', key))
+    for t in ('lit', 'litf', 'f'):
+        full += [('R', t, ('GET',), 'falsy'), ('R', t, (), 'falsy')]
     for p in ('lit', 'oth'):
         for d in (0, 1):
             full.append(('F', p, d, False))
@@ -464,7 +473,8 @@ def alphabets():
            ('R', 'f', ('GET', 'OPTIONS')), ('R', 'f', ()), ('R', 'f', ('POST',)),
            ('S', 'lit', 'X', True), ('S', 'lit', 'PX', True), ('S', 'lit', 'P', True),
            ('S', 'litf', 'X', True), ('S', 'litf', 'N', True), ('S', 'lit', 'PX', False)]
-    mid += [('K', key) for key in ('root', 'lit', 'litc', 'num', 'rest', 'oth', 'opt')]
+    mid += [('K', key) for key in ('root', 'lit', 'litc', 'num', 'rest', 'oth', 'opt', 'litci')]
+    mid += [('R', 'lit', ('GET',), 'falsy'), ('R', 'litf', (), 'falsy')]
     mid += [('F', 'lit', 0, False), ('F', 'lit', 1, False), ('F', 'oth', 0, False), ('F', 'oth', 1, False),
             ('F', 'oth', 1, True), ('B', 'sink'), ('F', 'oth', 0, True, 'slash')]
 
